@@ -35,11 +35,11 @@ def budget(tier):
 def generate(seed, tier):
     st = Streams(seed)
     small = st.prog.random() < 0.5
-    prog, g, cfg = scen.flat_program(st, small, _extra(st))
+    prog, g, top, kind = scen.mixed_program(st, small)
     n_parties = st.ops.choice([1, 2, 2, 3])
     n_ops = st.ops.randint(6, 24 if tier == "quick" else 48)
     ops = scen.history_ops(st, prog, g, n_parties, n_ops,
-                           mix={"randomize": 55, "rw": 25, "assign": 12, "frand": 8})
+                           mix={"randomize": 55, "rw": 25, "assign": 12, "frand": 8}, cname=top)
     # a second, unrelated class for the noise party
     st2 = Streams(kernel.H(seed, "noiseprog"))
     nprog, _, _ = scen.flat_program(st2, True)
@@ -58,7 +58,7 @@ def generate(seed, tier):
             "profile": vr.random() < 0.25,
         })
     return {"prop": ID, "seed": seed, "prog": prog, "noise_prog": nprog, "ops": ops,
-            "variants": variants, "gseed": st.lib.randint(0, 1 << 30),
+            "variants": variants, "gseed": st.lib.randint(0, 1 << 30), "top": top, "kind": kind,
             "sub": st.ops.choice(["snap", "shared", "mutate", "default"]),
             "sub_seed": st.lib.randint(0, 1 << 30)}
 
@@ -250,6 +250,14 @@ def calls_of(rec, n=4):
         [{"op": "randomize", "p": 0}, {"op": "randomize", "p": 0}]
 
 
+def _shape(t):
+    if isinstance(t, dict):
+        return {k: _shape(v) for k, v in t.items()}
+    if isinstance(t, list):
+        return [_shape(v) for v in t]
+    return 0
+
+
 def do_calls(w, p, calls):
     out = []
     for c in calls:
@@ -269,14 +277,16 @@ def sub_scenario(rec, stats, viol):
     calls = calls_of(rec)
     k = rec["sub_seed"]
     if kind == "snap":
-        p = w.new("K0")
+        p = w.new(rec.get("top", "K0"))
         w.apply({"op": "seed", "p": p, "k": k})
         do_calls(w, p, calls[:2])
         t0 = w.tree(p)
         snap = w.parties[p].obj.get_randstate()
         first = do_calls(w, p, calls)
         for rep in range(2):       # the snapshot itself must be unaffected by later calls
-            builder.write_tree(w.env, "K0", w.parties[p].obj, t0)
+            if _shape(w.tree(p)) != _shape(t0):
+                return             # a random-size list changed length: state cannot be re-assigned
+            builder.write_tree(w.env, rec.get("top", "K0"), w.parties[p].obj, t0)
             w.parties[p].obj.set_randstate(snap)
             again = do_calls(w, p, calls)
             stats["snap_checks"] = stats.get("snap_checks", 0) + 1
@@ -285,7 +295,7 @@ def sub_scenario(rec, stats, viol):
                              "detail": {"first": first, "again": again, "rep": rep}})
                 return
     elif kind == "shared":
-        a, b = w.new("K0"), w.new("K0")
+        a, b = w.new(rec.get("top", "K0")), w.new(rec.get("top", "K0"))
         rs = RandState.mkFromSeed(k)
         w.parties[a].obj.set_randstate(rs)
         ta = do_calls(w, a, calls)
@@ -296,7 +306,7 @@ def sub_scenario(rec, stats, viol):
             viol.append({"inv": "C09.snapshot_aliased",
                          "detail": {"what": "one RandState seeding two objects", "a": ta, "b": tb}})
     elif kind == "mutate":
-        a, b = w.new("K0"), w.new("K0")
+        a, b = w.new(rec.get("top", "K0")), w.new(rec.get("top", "K0"))
         rs = RandState.mkFromSeed(k)
         w.parties[a].obj.set_randstate(rs)
         for _ in range(5):
@@ -312,7 +322,7 @@ def sub_scenario(rec, stats, viol):
         got.randint(0, 1000)                     # mutating a returned snapshot
         t1 = do_calls(w, a, calls[:2])
         w2 = randworld.World(rec["prog"], tag="_s2")
-        c = w2.new("K0")
+        c = w2.new(rec.get("top", "K0"))
         w2.parties[c].obj.set_randstate(RandState.mkFromSeed(k))
         do_calls(w2, c, calls)
         t2 = do_calls(w2, c, calls[:2])
@@ -324,7 +334,7 @@ def sub_scenario(rec, stats, viol):
         for rep in range(2):
             ww = randworld.World(rec["prog"], tag="_d%d" % rep)
             _r.seed(k)
-            a = ww.new("K0")
+            a = ww.new(rec.get("top", "K0"))
             seq = do_calls(ww, a, calls)
             fr = ww.apply({"op": "frand", "targets": [[a, []]]})
             seq.append((fr["st"], ww.tree(a)))
@@ -357,6 +367,7 @@ def execute(rec):
     mask = "".join("1" if any(v.get(k) for v in rec["variants"]) else "0"
                    for k in ("merge", "noise", "debug", "sfd", "srcinfo", "capture", "profile"))
     sig = progs.shape_sig(rec["prog"]["classes"]) + "|" + scen.op_sig(rec["ops"]) + "|" + mask + rec["sub"]
+    stats["kind_" + rec.get("kind", "flat")] = 1
     xd = kernel.digest([[p, base[p]] for p in sorted(base)])
     return {"viol": viol, "stats": stats, "digest": xd, "xdigest": xd,
             "sigs": [kernel.digest(sig)[:16]] if ok >= 2 else [],
